@@ -1,4 +1,9 @@
-"""C08: accelerated triangle queries (mesh colliders, BVHs, nested joins, mesh SDF) over voxel worlds."""
+"""C08: accelerated triangle queries (mesh colliders, BVHs, nested joins, mesh SDF) over voxel worlds.
+
+Sites of the harness (c07_voxel.go): MeshToCollider, BVHToCollider(NewBVHAreaDensity), GroupTriangles +
+GroupedTrianglesToCollider, nested NewJoinedCollider, GroupBounders + GroupedCollidersToCollider,
+MeshToInterpNormalCollider (its interpolated normals differ from the face normals by design: only the normal part of
+"hits" / "first" is vacuous for it), MeshToSDF, GroupedTrianglesToSDF.  The 2-D accelerators: see c08_accel2."""
 import solids
 
 
